@@ -33,6 +33,23 @@ type Net struct {
 	Log     []*Datagram // every datagram ever written by an endpoint (wire capture)
 	nextID  int
 	Dropped int // deliveries to addresses nobody listens on
+	holds   int // harness-owned activities in progress (e.g. a Handshake call that has not been recorded yet)
+}
+
+// Hold marks a harness-owned activity as in progress: the network is not quiescent until the
+// matching Release. It closes the window between an endpoint call returning and the harness
+// goroutine recording its result.
+func (n *Net) Hold() {
+	n.mu.Lock()
+	n.holds++
+	n.mu.Unlock()
+}
+
+func (n *Net) Release() {
+	n.mu.Lock()
+	n.holds--
+	n.cond.Broadcast()
+	n.mu.Unlock()
 }
 
 func New() *Net {
@@ -117,7 +134,7 @@ func (n *Net) WaitQuiescent() error {
 	n.mu.Lock()
 	defer n.mu.Unlock()
 	for {
-		ok := true
+		ok := n.holds == 0
 		for _, c := range n.conns {
 			if !c.quiescentLocked() {
 				ok = false
